@@ -10,6 +10,7 @@ import (
 	"os"
 
 	"bytes"
+	"encoding/base64"
 	"github.com/mimiro-io/datahub/internal/server"
 	ds "github.com/mimiro-io/datahub/internal/service/dataset"
 	"github.com/mimiro-io/datahub/internal/service/types"
@@ -187,7 +188,196 @@ func hEntities(store *server.Store, dsm *server.DsManager, op server.VerifOp, to
 	return
 }
 
+func httpDoCT(store *server.Store, dsm *server.DsManager, path, ctype string, body []byte) (int, []byte) {
+	e := web.VerifStoreEcho(store, dsm)
+	req := httptest.NewRequest("POST", path, bytes.NewReader(body))
+	req.Header.Set("Content-Type", ctype)
+	rec := httptest.NewRecorder()
+	e.ServeHTTP(rec, req)
+	return rec.Code, rec.Body.Bytes()
+}
+
+// POST /query {"entityId": ...} (web/queryhandler.go): the lookup of the `get` op through the HTTP handler
+func hQuery(store *server.Store, dsm *server.DsManager, op server.VerifOp, tokens map[string]int64) (oo server.VerifOpObs) {
+	dss := op.Datasets
+	if dss == nil {
+		dss = []string{}
+	}
+	body, _ := json.Marshal(map[string]interface{}{"entityId": op.ID, "datasets": dss, "noPartialMerging": !op.Merge})
+	code, resp := httpDo(store, dsm, "POST", "/query", body)
+	if code != 200 {
+		oo.Err = fmt.Sprintf("status %d", code)
+		return
+	}
+	var arr []json.RawMessage
+	if err := json.Unmarshal(resp, &arr); err != nil || len(arr) != 2 {
+		oo.Err = "unparsable response"
+		return
+	}
+	var m map[string]interface{}
+	if err := json.Unmarshal(arr[1], &m); err != nil {
+		oo.Err = "unparsable entity"
+		return
+	}
+	if _, has := m["props"]; has { // the handler answers {"id": ...} alone when the store returned nil
+		oo.Found = true
+		oo.Ents = []server.VerifEnt{server.VerifEntFromMap(m)}
+	}
+	return
+}
+
+func txnBody(sets []server.VerifSet) []byte {
+	var b bytes.Buffer
+	b.WriteString(`{"@context":{"namespaces":{"_":"http://v/"}}`)
+	for _, s := range sets {
+		arr := server.VerifPayload(s.Ents) // [ctx, e1, e2 ...]
+		var items []json.RawMessage
+		_ = json.Unmarshal(arr, &items)
+		k, _ := json.Marshal(s.Ds)
+		b.WriteString(",")
+		b.Write(k)
+		b.WriteString(":[")
+		for i, it := range items[1:] {
+			if i > 0 {
+				b.WriteString(",")
+			}
+			b.Write(it)
+		}
+		b.WriteString("]")
+	}
+	b.WriteString("}")
+	return b.Bytes()
+}
+
+// POST /transactions (web/txnhandler.go, EntityStreamParser.ParseTransaction); every dataset at most once in sets
+func hTxn(store *server.Store, dsm *server.DsManager, op server.VerifOp, tokens map[string]int64) (oo server.VerifOpObs) {
+	for _, s := range op.Sets {
+		oo.Lens = append(oo.Lens, server.VerifLens(store, s.Ents)...)
+	}
+	code, body := httpDo(store, dsm, "POST", "/transactions", txnBody(op.Sets))
+	if code != 200 {
+		oo.Err = fmt.Sprintf("status %d: %s", code, string(body))
+	}
+	return
+}
+
+func jsQuery(store *server.Store, dsm *server.DsManager, code string) ([]json.RawMessage, string) {
+	body, _ := json.Marshal(map[string]string{"query": base64.StdEncoding.EncodeToString([]byte(code))})
+	st, resp := httpDoCT(store, dsm, "/query", "application/x-javascript-query", body)
+	if st != 200 {
+		return nil, fmt.Sprintf("status %d: %s", st, string(resp))
+	}
+	var arr []json.RawMessage
+	if err := json.Unmarshal(resp, &arr); err != nil {
+		return nil, "unparsable response: " + string(resp)
+	}
+	return arr, ""
+}
+
+// the JS binding GetDatasetChanges(ds, since, limit) (always latest-only), run as a javascript query
+func jsChanges(store *server.Store, dsm *server.DsManager, op server.VerifOp, tokens map[string]int64) (oo server.VerifOpObs) {
+	key := op.Reader + "@js@" + op.Ds
+	since := op.Since
+	if op.Reader != "" {
+		since = tokens[key]
+	}
+	dsn, _ := json.Marshal(op.Ds)
+	arr, e := jsQuery(store, dsm, fmt.Sprintf(`function do_query() { WriteQueryResult(GetDatasetChanges(%s, %d, %d)); }`, string(dsn), since, op.Limit))
+	if e != "" || len(arr) != 1 {
+		oo.Err = "js: " + e
+		return
+	}
+	var ch struct {
+		Entities  []map[string]interface{}
+		NextToken uint64
+	}
+	if err := json.Unmarshal(arr[0], &ch); err != nil {
+		oo.Err = "unparsable changes"
+		return
+	}
+	oo.Ents = []server.VerifEnt{}
+	for _, m := range ch.Entities {
+		oo.Ents = append(oo.Ents, server.VerifEntFromMap(m))
+	}
+	oo.Next = int64(ch.NextToken)
+	if op.Reader != "" {
+		tokens[key] = oo.Next
+	}
+	return
+}
+
+// the JS binding FindById(id, datasets) (always merged)
+func jsFind(store *server.Store, dsm *server.DsManager, op server.VerifOp, tokens map[string]int64) (oo server.VerifOpObs) {
+	id, _ := json.Marshal(op.ID)
+	dss := op.Datasets
+	if dss == nil {
+		dss = []string{}
+	}
+	dl, _ := json.Marshal(dss)
+	arr, e := jsQuery(store, dsm, fmt.Sprintf(`function do_query() { WriteQueryResult(FindById(%s, %s)); }`, string(id), string(dl)))
+	if e != "" || len(arr) != 1 {
+		oo.Err = "js: " + e
+		return
+	}
+	if string(arr[0]) == "null" {
+		return
+	}
+	var m map[string]interface{}
+	if err := json.Unmarshal(arr[0], &m); err != nil {
+		oo.Err = "unparsable entity"
+		return
+	}
+	oo.Found = true
+	oo.Ents = []server.VerifEnt{server.VerifEntFromMap(m)}
+	return
+}
+
+// a transaction built and executed from JavaScript (NewTransaction / NewEntity / ExecuteTransaction)
+func jsTxn(store *server.Store, dsm *server.DsManager, op server.VerifOp, tokens map[string]int64) (oo server.VerifOpObs) {
+	for _, s := range op.Sets {
+		oo.Lens = append(oo.Lens, server.VerifLens(store, s.Ents)...)
+	}
+	spec, _ := json.Marshal(op.Sets)
+	code := `function do_query() {
+  var p = AssertNamespacePrefix("http://v/");
+  var q = function (x) { return p + ":" + x; };
+  var sets = ` + string(spec) + `;
+  var txn = NewTransaction();
+  for (var i = 0; i < sets.length; i++) {
+    var l = [];
+    var ents = sets[i].ents || [];
+    for (var j = 0; j < ents.length; j++) {
+      var e = NewEntity();
+      e.ID = q(ents[j].id);
+      if (ents[j].deleted) { e.IsDeleted = true; }
+      var pr = ents[j].props || {};
+      for (var k in pr) { e.Properties[q(k)] = pr[k]; }
+      var rf = ents[j].refs || {};
+      for (var k in rf) {
+        var v = rf[k];
+        if (Array.isArray(v)) { var a = []; for (var m = 0; m < v.length; m++) { a.push(q(v[m])); } e.References[q(k)] = a; }
+        else { e.References[q(k)] = q(v); }
+      }
+      l.push(e);
+    }
+    txn.DatasetEntities[sets[i].ds] = l;
+  }
+  ExecuteTransaction(txn);
+  WriteQueryResult("ok");
+}`
+	arr, e := jsQuery(store, dsm, code)
+	if e != "" || len(arr) != 1 {
+		oo.Err = "js: " + e
+	}
+	return
+}
+
 func init() {
+	server.VerifExtOps["hquery"] = hQuery
+	server.VerifExtOps["htxn"] = hTxn
+	server.VerifExtOps["jschanges"] = jsChanges
+	server.VerifExtOps["jsfind"] = jsFind
+	server.VerifExtOps["jstxn"] = jsTxn
 	server.VerifExtOps["changes_rev"] = changesRev
 	server.VerifExtOps["hbatch"] = hBatch
 	server.VerifExtOps["hchanges"] = hChanges
